@@ -84,6 +84,43 @@ def run(ctx):
                                   inp, observed={"out": (r.out or b"")[:120], "exc": repr(r.exc), "log": r.log[-1:]},
                                   required=(ref[(view, gplus)] or b"")[:120], replay=rp)
                 res.count("after:" + ("ok" if rows == ref[(view, gplus)] else "BAD"))
+        # ---- the request whose own cache write is cut off (full disk, file size limit): the cause of a cut-off file.  The kernel
+        # refuses the bytes beyond k (a real RLIMIT_FSIZE around the request); that request and the next one still list.
+        import resource
+        import signal
+        old_xfsz = signal.signal(signal.SIGXFSZ, signal.SIG_IGN)
+        old_lim = resource.getrlimit(resource.RLIMIT_FSIZE)
+        try:
+            for d in dirs[:2]:
+                cpath = tree.path(d + "/" + cachefile)
+                for k in (0, 1, 64, 4096):
+                    view, gplus = listing.VIEWS[rng.randrange(len(listing.VIEWS))]
+                    if os.path.exists(cpath):
+                        os.unlink(cpath)
+                    want = listing.real_rows(view, gplus, cfg, d)[0]
+                    full = os.path.getsize(cpath)
+                    os.unlink(cpath)
+                    if k >= full:
+                        continue
+                    resource.setrlimit(resource.RLIMIT_FSIZE, (k, old_lim[1]))
+                    try:
+                        rows, r = listing.real_rows(view, gplus, cfg, d)
+                    finally:
+                        resource.setrlimit(resource.RLIMIT_FSIZE, old_lim)
+                    left = os.path.getsize(cpath) if os.path.exists(cpath) else None
+                    rows2, r2 = listing.real_rows(view, gplus, cfg, d)
+                    res.evaluations += 2
+                    res.count("write-cut-off:" + ("file-left-short" if left is not None and left < full else "no-short-file"))
+                    res.nontrivial.add((d, "write-cut", k))
+                    for who, rw, rr in (("the request whose cache write was cut off", rows, r), ("the next request", rows2, r2)):
+                        if rw != want:
+                            res.violation("C11:cache-write-cut-off:" + ("writer" if rr is r else "next"), "a cache write cut off by the file system is not harmless",
+                                          {"dir": d, "bytes_accepted": k, "cache_size": full, "view": view, "who": who},
+                                          observed={"out": (rr.out or b"")[:160], "exc": repr(rr.exc), "log": rr.log[-1:]}, required=(want or b"")[:160],
+                                          replay={"dir": d, "cut_at": k, "view": view, "gplus": gplus, "write_fault": True})
+        finally:
+            resource.setrlimit(resource.RLIMIT_FSIZE, old_lim)
+            signal.signal(signal.SIGXFSZ, old_xfsz)
         # ---- two readers racing on one damaged cache file: both have opened and failed to load it before either acts on that.
         # Forced with a barrier inside the load (no scheduler luck); each must still get the complete listing.
         import threading
